@@ -23,6 +23,30 @@ def prop_class(pid):
     return getattr(importlib.import_module(m), c)
 
 
+def splice_sections(s):
+    """Section 5: the sub-section '### Cxx ...' is replaced by tools/design_sections/Cxx.md when that file exists (written from the
+    harness modules and the Lean files after the audit round)."""
+    import re
+    a = s.index("## 5. Per-property design")
+    b = s.index("## 6.", a)
+    sec = s[a:b]
+    parts = re.split(r"(?m)^(?=### C\d\d )", sec)
+    out = [parts[0]]
+    for part in parts[1:]:
+        pid = part[4:7]
+        f = os.path.join(HERE, "tools", "design_sections", pid + ".md")
+        if os.path.exists(f):
+            body = open(f).read().rstrip() + "\n\n"
+            tail = ""
+            m = re.search(r"(?m)^-{20,}\s*$", part)
+            if m and pid == "C20":
+                tail = part[m.start():]
+            out.append(body + tail)
+        else:
+            out.append(part)
+    return s[:a] + "".join(out) + s[b:]
+
+
 def main():
     props = [json.loads(l) for l in open(os.path.join(HERE, "properties.jsonl"))]
     out = [BEGIN, "", "### 9.5 Theorems per property (generated from the harness modules; every name is audited with `#print axioms` on every run)", ""]
@@ -53,6 +77,7 @@ def main():
     out += ["", END]
     path = os.path.join(HERE, "DESIGN.md")
     s = open(path).read()
+    s = splice_sections(s)
     block = "\n".join(out)
     if BEGIN in s:
         s = s[:s.index(BEGIN)] + block + s[s.index(END) + len(END):]
